@@ -1,9 +1,59 @@
 import LinfaSpec.Model.Proto
+import LinfaSpec.Model.Scalar
+import LinfaSpec.Model.Pca
 
 namespace LinfaSpec.Drv.C18
-open LinfaSpec.Proto
+open LinfaSpec.Proto LinfaSpec.Pca
 
-/-- stub: replaced when the property's model lands -/
-def handle (_toks : List String) : String := "bad-op"
+def showErr : FitErr String → String
+  | .notEnoughSamples => "err NotEnoughSamples"
+  | .embeddingTooSmall k => s!"err EmbeddingTooSmall({k})"
+  | .linalg _ => "err Linalg"
+
+def showApprox (xs : List (List Float)) : String := showList2 (fun x => "~" ++ showF64c x) xs
+
+/-- `fit n= p= k= w= x= svd=ok|err sv= vt= q=`:
+the record matrix `x` (n rows of width p; `x=` empty for n = 0), the embedding size, the
+whitening flag, what the external truncated SVD returned on the centred matrix (`sv`, `vt`;
+`svd=none` when the guards reject before it is called), and query rows `q` for
+`predict` / `inverse_transform`. -/
+def handleFit (toks : List String) : Option String := do
+  let n ← argNat toks "n"; let p ← argNat toks "p"; let k ← argNat toks "k"
+  let w ← argNat toks "w"
+  let x ← argF64s2 toks "x"
+  let q ← argF64s2 toks "q"
+  let svdTag ← arg toks "svd"
+  -- the external solver panicked on the centred matrix (after both guards passed): so does `fit`
+  if svdTag == "panic" ∧ (guard (ε := String) n p k).isNone then return "panic"
+  if x.length ≠ n then none
+  if x.any (·.length ≠ p) ∨ q.any (·.length ≠ p) then none
+  let svd : List (List Float) → Nat → Except String (List Float × List (List Float)) ←
+    (match svdTag with
+     | "ok" => do
+        let sv ← argF64s toks "sv"; let vt ← argF64s2 toks "vt"
+        if vt.length ≠ sv.length ∨ vt.any (·.length ≠ p) then none
+        some (fun _ _ => Except.ok (sv, vt))
+     | "err" => some (fun _ _ => Except.error "linalg")
+     | "none" => some (fun _ _ => Except.error "svd-not-expected")
+     | _ => none)
+  match fit (α := Float) 1e-8 svd k (w != 0) p x with
+  | .error e =>
+    -- the harness sends svd=none exactly when the implementation rejected before the SVD
+    match e, svdTag with
+    | .linalg _, "none" => none
+    | e, _ => some (showErr e)
+  | .ok m =>
+    let z := transform m q
+    let inv := inverseTransform m z
+    some (s!"ok mean={showList showF64c m.mean} sigma={showList showF64c m.sigma} " ++
+      s!"comp={showList2 showF64c m.embedding} ev={showList showF64c (explainedVariance m)} " ++
+      s!"evr={showList (fun x => "~" ++ showF64c x) (explainedVarianceRatio m)} " ++
+      s!"z={showApprox z} inv={showApprox inv}")
+
+def handle (toks : List String) : String :=
+  let r := match toks with
+    | "fit" :: rest => handleFit rest
+    | _ => none
+  r.getD "bad-op"
 
 end LinfaSpec.Drv.C18
